@@ -69,8 +69,7 @@ prop('C11',
                 # load followed by push: CBMC cannot bound the peak vector rebuilt by load(), explores the
                 # hashbrown scratch map in root_node and does not finish (900 s) -> outside the claim
                 (r'h_(pl1p|ppl1p|pprpl1p)::c11_(root|prove_j0|prove_j1)$', dict(skip=True)),
-                (r'h_p[3458]\w+::', dict(tier='thorough', mem=12)),
-                (r'h_(p3rp2|p4l3)::', dict(tier='rotate', mem=8))],
+                (r'h_p[3458]\w+::', dict(tier='thorough', mem=12, attempt=True, timeout=900))],
      rotate_pick=24,
      min_harnesses={'quick': 60, 'thorough': 100},
      functions_encoded=['fuel_merkle::binary::MerkleTree::{new,push,reset,load,root,leaves_count,prove}',
@@ -95,7 +94,8 @@ VM_STUBS_NOTE = ('fuel_vm::constraints::reg_key::split_registers replaced by a s
 prop('C21',
      builds=[dict(crate='vm', filters=['c21_'])],
      default=dict(mem=4, timeout={'quick': 600, 'thorough': 2400}),
-     overrides=[(r'c21_(div|divi|mod|modi|exp_small|exp_closed|expi_small|mlog|mldv|mul_full|mul_b32|niop_reserved_register|niop_exp_\w+)$', dict(tier='thorough', mem=8)),
+     overrides=[(r'c21_(div|divi|mod|modi|exp_small|exp_closed|expi_small|mlog|mldv|mul_full)$', dict(tier='thorough', mem=8, attempt=True, timeout=1200)),
+                (r'c21_(mul_b32|niop_reserved_register|niop_exp_\w+)$', dict(tier='thorough', mem=8)),
                 (r'c21_niop_(add|sub|mul|sll|xnor)_u(16|32)$', dict(tier='rotate'))],
      rotate_pick=3,
      min_harnesses={'quick': 30, 'thorough': 50},
@@ -182,10 +182,10 @@ prop('C09',
 prop('C10',
      builds=[dict(crate='ext', filters=['c10_'])],
      default=dict(mem=8, timeout={'quick': 600, 'thorough': 3000}, cbmc_extra=FS, unwindset=['memcmp.0:34']),
-     overrides=[(r'_l[45]$', dict(tier='thorough', mem=28)),
+     overrides=[(r'_l[45]$', dict(tier='thorough', mem=28, attempt=True, timeout=1500)),
                 (r'c10_sound_c\d+_l3$|c10_reject_c(3_l3|9_l3)$', dict(tier='rotate')),
                 (r'c10_complete_n4$', dict(tier='rotate')),
-                (r'c10_complete_n[567]$', dict(tier='thorough', mem=16))],
+                (r'c10_complete_n[567]$', dict(tier='thorough', mem=16, attempt=True, timeout=1500))],
      rotate_pick=2,
      min_harnesses={'quick': 24, 'thorough': 40},
      functions_encoded=['fuel_merkle::binary::verify::{verify, path_length_from_key}', 'fuel_merkle::binary::MerkleTree::{push, root, prove, root_node}',
@@ -214,7 +214,7 @@ prop('C23',
 prop('C02',
      builds=[dict(crate='ext', filters=['c02_'])],
      default=dict(mem=12, timeout={'quick': 900, 'thorough': 2400}),
-     overrides=[(r'c02_(policies|witness|output)_fixed_point$|c02_transaction_size$', dict(tier='thorough', mem=30))],
+     overrides=[(r'c02_(policies|witness|output)_fixed_point$|c02_transaction_size$', dict(tier='thorough', mem=30, attempt=True, timeout=1500))],
      min_harnesses={'quick': 8, 'thorough': 12},
      functions_encoded=['<T as fuel_types::canonical::Deserialize>::decode / from_bytes and <T as Serialize>::{size, size_static, size_dynamic, to_bytes} for T in {UtxoId, TxPointer, Policies, StorageSlot, Witness, Output, Input, Receipt, Transaction}',
                         'fuel_types::canonical: Vec<T>, [u8;N], integer and Input-for-&[u8] impls', 'fuel-derive generated decode_static/decode_dynamic'],
@@ -228,7 +228,7 @@ prop('C02',
 prop('C14',
      builds=[dict(crate='ext', filters=['c14_'])],
      default=dict(mem=3, timeout={'quick': 900, 'thorough': 2400}, cbmc_extra=FS),
-     overrides=[(r'c14_generate', dict(mem=24, tier='thorough'))],
+     overrides=[(r'c14_generate', dict(mem=24, tier='thorough', attempt=True, timeout=1200))],
      min_harnesses={'quick': 10, 'thorough': 11},
      functions_encoded=['fuel_merkle::sparse::proof::{InclusionProof::verify, ExclusionProof::verify, ExclusionLeaf::hash}', 'fuel_merkle::common::path::Path::get_instruction',
                         'fuel_merkle::common::msb::Msb::get_bit_at_index_from_msb'],
@@ -241,7 +241,7 @@ prop('C14',
 prop('C01',
      builds=[dict(crate='ext', filters=['c01_'])],
      default=dict(mem=6, timeout={'quick': 900, 'thorough': 3000}, unwindset=['memcmp.0:66']),
-     overrides=[(r'c01_input_message_data_predicate', dict(tier='thorough', mem=16))],
+     overrides=[(r'c01_input_message_data_predicate', dict(tier='thorough', mem=16, attempt=True, timeout=1500))],
      min_harnesses={'quick': 24, 'thorough': 27},
      functions_encoded=['<T as fuel_types::canonical::Serialize>::{to_bytes, size, size_static, size_dynamic, encode_static, encode_dynamic} and <T as Deserialize>::{decode, decode_static, decode_dynamic} (fuel-derive generated) for UtxoId, TxPointer, StorageSlot, Witness, Policies (5 concrete masks incl. none/all), all 5 Output variants, all 7 Input variants',
                         'fuel_types::canonical impls for integers, [u8;N], Vec<u8>, Bytes; alignment_bytes / aligned_size'],
@@ -254,7 +254,7 @@ prop('C01',
 prop('C18',
      builds=[dict(crate='ext', filters=['c18_'])],
      default=dict(mem=3, timeout={'quick': 900, 'thorough': 3000}, cbmc_extra=FS),
-     overrides=[(r'c18_(max_fee_factor_\w+|min_fee_factor_(default|big)|refund_factor_default(_bounded)?|refund_monotone_\w+)$', dict(tier='thorough'))],
+     overrides=[(r'c18_(max_fee_factor_\w+|min_fee_factor_(default|big)|refund_factor_default(_bounded)?|refund_monotone_\w+)$', dict(tier='thorough', attempt=True, timeout=1200))],
      min_harnesses={'quick': 8, 'thorough': 18},
      functions_encoded=['Upload/Blob/Create::{min_gas, metered_bytes_size, gas_used_by_metadata} (ordering only)', 'fuel_tx::Chargeable::{min_gas, max_gas, min_fee, max_fee, refund_fee} (default methods) on a real Script', 'fuel_tx::transaction::fee::{gas_to_fee, min_gas}',
                         'TransactionFee::checked_from_tx', 'Script::{metered_bytes_size, gas_used_by_metadata}', 'DependentCost::resolve'],
@@ -379,7 +379,7 @@ def load_known_findings():
 
 
 def write_evidence(pid, tier, seed, results, ok, violations, known_hits, inconclusive, wall, build_s,
-                   partial=False, pre_results=()):
+                   partial=False, pre_results=(), attempts=()):
     spec = PROPS[pid]
     covers = sum(r.get('covers_sat', 0) for r in ok)
     n_checks = sum(r.get('n_checks', 0) for r in results)
@@ -414,6 +414,7 @@ def write_evidence(pid, tier, seed, results, ok, violations, known_hits, inconcl
             stubs=stubs,
             out_of_claim=spec['out_of_claim'],
             inconclusive=inconclusive,
+            attempts_without_verdict=list(attempts),
             known_findings=[k['description'] for k, _ in known_hits],
             solver='CBMC 6.11.0 + cadical (via Kani 0.68.0 goto binaries)',
             solver_time_s=round(sum(r.get('solver_s', 0) for r in results), 1),
